@@ -56,6 +56,8 @@ pub struct Model {
     pub now_ms: i64,
     pub next_inc: u32,
     pub next_req: u32,
+    /// ack ids issued by deleted subscriptions, by name: stale for every later subscription of that name
+    pub graveyard: BTreeMap<String, Vec<String>>,
 }
 
 pub type V = Result<(), (String, String)>;
@@ -202,8 +204,10 @@ impl Model {
                 queue: vec![],
                 delivered_once: Default::default(),
                 outstanding: Default::default(),
-                used_ack_ids: Default::default(),
-                stale_ack_ids: vec![],
+                // ack ids handed out by earlier subscriptions of this name must never be handed out again ...
+                used_ack_ids: self.graveyard.get(name).map(|g| g.iter().cloned().collect()).unwrap_or_default(),
+                // ... and are stale: acknowledging or modifying them has no effect
+                stale_ack_ids: self.graveyard.get(name).cloned().unwrap_or_default(),
                 acked: Default::default(),
                 created_at_req: self.next_req,
             },
@@ -239,7 +243,14 @@ impl Model {
         if r.is_err() {
             return viol("delete-sub/failed", format!("DeleteSubscription({}) of an existing subscription returned {:?}", name, r));
         }
-        self.subs.remove(name);
+        if let Some(old) = self.subs.remove(name) {
+            let g = self.graveyard.entry(name.to_string()).or_default();
+            for id in old.used_ack_ids.iter() {
+                if !g.contains(id) {
+                    g.push(id.clone());
+                }
+            }
+        }
         self.sub_order.retain(|s| s != name);
         Ok(())
     }
